@@ -252,7 +252,9 @@ func runKeyring(inputs []json.RawMessage, tr *tracer) summary {
 				res = err == nil
 			} else {
 				var payload []byte
-				if st.K == 6 {
+				if st.Op == "list" {
+					payload = mpack(msgKeyRequest, keyRequest{})
+				} else if st.K == 6 {
 					payload = []byte{msgKeyRequest, 0xc1, 0xff, 0x00}
 				} else if st.K == 8 {
 					payload = []byte{}
@@ -260,7 +262,11 @@ func runKeyring(inputs []json.RawMessage, tr *tracer) summary {
 					payload = mpack(msgKeyRequest, keyRequest{Key: keyBytes(st.K)})
 				}
 				id := uint32(100000 + si)
-				nd.Del.NotifyMsg(encQuery("_serf_"+st.Op+"-key", uint64(si+1), id, asker, payload))
+				qname := "_serf_" + st.Op + "-key"
+				if st.Op == "list" {
+					qname = "_serf_list-keys"
+				}
+				nd.Del.NotifyMsg(encQuery(qname, uint64(si+1), id, asker, payload))
 				_, r, ok, _ := awaitReplyT(net, asker, id, nil)
 				var kr nodeKeyResponse
 				if !ok || len(r.Payload) < 1 || r.Payload[0] != msgKeyResponse || munpack(r.Payload[1:], &kr) != nil {
